@@ -96,6 +96,70 @@ def overlap_obls(prefix):
     return out
 
 
+def baselevel_obls(prefix):
+    out = []
+    # (compaction level, files per level 0..6, keys, tier); every config has files in levels >= level+2 only
+    cfg = ((4, (0, 0, 0, 0, 0, 0, 2), 2, "quick"), (4, (0, 0, 0, 0, 0, 0, 3), 3, "quick"), (3, (0, 0, 0, 0, 0, 2, 2), 2, "quick"),
+           (0, (0, 0, 2, 2, 0, 0, 0), 3, "quick"), (1, (0, 0, 0, 2, 1, 1, 2), 2, "quick"), (0, (0, 0, 1, 1, 1, 1, 1), 2, "quick"),
+           (0, (0, 0, 2, 2, 2, 2, 2), 2, "thorough"), (2, (0, 0, 0, 0, 3, 3, 3), 3, "thorough"))
+    for cl, t, q, tier in cfg:
+        mx = max(t)
+        out.append(Obl("%s.base-level-C%d-%s-Q%d" % (prefix, cl, _lname(t), q), "vset/baselevel.c", real=VER_REAL, include_real=INC, kit=KIT,
+                       defs=dict(_levels(t), VP_CL=cl, VP_Q=q), unwind=11,
+                       unwindset={"memcmp.0": 3, "ldb_compaction_is_base_level_for_key.0": mx + 1,
+                                  "ldb_compaction_is_base_level_for_key.1": 8},
+                       restrict_fp=CMP_FP, tier=tier, timeout=400, unwind_is_violation=True,
+                       functions=["ldb_compaction_is_base_level_for_key"],
+                       desc="is_base_level_for_key over a non-decreasing key sequence (stateful cursor) == no file in levels >= level+2 contains the key; "
+                            "terminates within files+1 steps per level",
+                       bounds="compaction level %d, files per level %s, %d non-decreasing 1-byte user keys (domain 0..15), sequences 0..7, "
+                              "user keys may straddle adjacent files" % (cl, t, q)))
+    return out
+
+
+BD_MODES = {0: "add-boundary", 1: "pick-size", 2: "pick-seek", 3: "compact-range"}
+BD_FUNCS = ["ldb_add_boundary_inputs", "find_smallest_boundary_file", "find_largest_key", "ldb_versions_setup_other_inputs",
+            "ldb_versions_pick_compaction", "ldb_versions_compact_range", "ldb_version_get_overlapping_inputs",
+            "ldb_versions_get_range", "ldb_versions_get_range2", "ldb_compaction_is_trivial_move", "total_file_size",
+            "ldb_compaction_create"]
+
+
+def boundary_obls(prefix):
+    out = []
+    # (mode, compaction level, files per level 0..6, tier)
+    cfg = [(0, 1, (0, 1), "quick"), (0, 1, (0, 2), "quick"), (0, 1, (0, 3), "quick"), (0, 6, (0, 0, 0, 0, 0, 0, 3), "quick"),
+           (0, 1, (0, 4), "thorough"),
+           (1, 1, (0, 2, 1, 1), "quick"), (1, 1, (0, 2, 2, 0), "quick"), (1, 1, (0, 3, 1, 0), "quick"), (1, 0, (2, 1, 1), "quick"),
+           (1, 5, (0, 0, 0, 0, 0, 2, 2), "quick"), (1, 4, (0, 0, 0, 0, 2, 1, 1), "quick"),
+           (1, 1, (0, 3, 2, 1), "thorough"), (1, 1, (0, 2, 3, 2), "thorough"), (1, 0, (3, 2, 1), "thorough"),
+           (2, 1, (0, 2, 1, 1), "quick"), (2, 1, (0, 3, 1, 0), "quick"), (2, 0, (2, 1, 1), "quick"), (2, 5, (0, 0, 0, 0, 0, 2, 2), "quick"),
+           (2, 1, (0, 3, 2, 1), "thorough"),
+           (3, 1, (0, 2, 1, 1), "quick"), (3, 0, (2, 1, 1), "quick"), (3, 5, (0, 0, 0, 0, 0, 2, 2), "quick"),
+           (3, 1, (0, 3, 2, 1), "thorough")]
+    for mode, cl, t, tier in cfg:
+        t = tuple(t) + (0,) * (9 - len(t))
+        ncl, n1, n2 = t[cl], t[cl + 1], t[cl + 2]
+        mx = max(t)
+        out.append(Obl("%s.%s-C%d-%s" % (prefix, BD_MODES[mode], cl, _lname(t[:7])), "vset/boundary.c",
+                       real=VER_REAL, include_real=INC, kit=KIT,
+                       defs=dict(_levels(t[:7]), VP_MODE=mode, VP_CL=cl, VP_NCL1=n1, VP_NCL2=n2, VP_VEC_CAP=8), unwind=11,
+                       unwindset={"memcmp.0": 10, "memcpy.0": 10, "vp_realloc_ptrs.0": 9,
+                                  "ldb_version_get_overlapping_inputs.0": (t[0] * (t[0] + 1) + 2) if cl == 0 else mx + 1,
+                                  "ldb_add_boundary_inputs.0": mx + 1, "find_smallest_boundary_file.0": mx + 1,
+                                  "find_largest_key.0": mx + 2, "total_file_size.0": mx + 2, "ldb_versions_get_range.0": 2 * mx + 2,
+                                  "ldb_versions_get_range2.0": mx + 2, "ldb_versions_get_range2.1": mx + 2},
+                       restrict_fp=CMP_FP, tier=tier, timeout=600, flags=["--slice-formula"], functions=BD_FUNCS, object_bits=10,
+                       desc={0: "add_boundary_inputs on a symbolic contiguous run of a level: given files kept, only boundary files added, result closed: "
+                                "no file left behind holds older entries of a user key a selected file ends with",
+                             1: "pick_compaction (size triggered, symbolic compact pointer)", 2: "pick_compaction (seek triggered, any file)",
+                             3: "compact_range (begin/end independently NULL)"}[mode] +
+                            ("" if mode == 0 else ": never-newer-below-older in level and level+1, level+1 overlap completeness, survivors outside the "
+                                                  "inputs' hull, grandparents, trivial-move rule, compact pointer"),
+                       bounds="compaction level %d, files per level %s (sizes 0..4000, max_file_size 100), 1-byte user keys 0..15 that may "
+                              "straddle adjacent files, sequences 0..7" % (cl, t[:7])))
+    return out
+
+
 VL_FUNCS = ["ldb_versions_add_files", "ldb_version_unref", "ldb_version_ref", "ldb_version_destroy", "ldb_version_clear",
             "ldb_versions_append_version", "ldb_version_create", "ldb_version_init", "ldb_vector_push", "ldb_vector_clear"]
 VL_OPS = {0: ("add-files", "ldb_versions_add_files: live == exactly the file numbers of every version in the list, every level 0..6"),
@@ -124,5 +188,5 @@ def versionlist_obls(prefix):
     return out
 
 
-OBLIGATIONS = overlap_obls("e") + versionlist_obls("b")
+OBLIGATIONS = overlap_obls("e") + baselevel_obls("d") + boundary_obls("f") + versionlist_obls("b")
 META = {}
